@@ -24,10 +24,16 @@ Definition descend (d: dir) (k: tstep) : (kv -> kv) -> kv -> kv -> res kv :=
   | Ser, TOptional => K5P.descend_pack_optional
   | Ser, TElement => K5P.descend_pack_element
   | Ser, TMember => K5P.descend_pack_member
+  | Ser, TTupleItem => K5P.descend_pack_tuple_item
+  | Ser, TNamedField => K5P.descend_pack_named_field
+  | Ser, TTypedKey => K5P.descend_pack_typed_key
   | De, TNewType => K5P.descend_unpack_newtype
   | De, TOptional => K5P.descend_unpack_optional
   | De, TElement => K5P.descend_unpack_element
   | De, TMember => K5P.descend_unpack_member
+  | De, TTupleItem => K5P.descend_unpack_tuple_item
+  | De, TNamedField => K5P.descend_unpack_named_field
+  | De, TTypedKey => K5P.descend_unpack_typed_key
   end.
 
 Definition site_cls (d: dir) (self: bool) : kv -> kv -> kv -> kv :=
